@@ -1977,3 +1977,161 @@ func ruleSymbolOperand(c *Ctx, rule string) {
 		c.Und(rule, "emissions addressing locals / captured variables", "-", fmt.Sprintf("only %d found", n))
 	}
 }
+
+// ---- C17/enc-sign ------------------------------------------------------------------------------------------------------------------------
+// "The same bytes encoding/json produces for the corresponding Go value", for
+// numbers: an encoder of the json package never converts an unsigned 64-bit
+// value to a signed type of the same width (or a signed one to unsigned) on
+// its way to strconv: uint values above 2^63 would be written as negative
+// numbers.  (Widening conversions and conversions between named types of one
+// underlying kind are not sign changes.)
+func ruleEncSign(c *Ctx, rule string) {
+	l := c.L
+	n, bad, nf := 0, 0, 0
+	for _, fn := range l.RepoFuncs(func(p string) bool { return p == jsonPath }) {
+		d := l.DeclOfSSA(fn)
+		if d == nil || !strings.HasSuffix(l.Fset.Position(d.Pos()).Filename, "encode.go") {
+			continue
+		}
+		nf++
+		eachInstr(fn, func(ins ssa.Instruction) {
+			cv, ok := ins.(*ssa.Convert)
+			if !ok {
+				return
+			}
+			from, ok1 := cv.X.Type().Underlying().(*types.Basic)
+			to, ok2 := cv.Type().Underlying().(*types.Basic)
+			if !ok1 || !ok2 || from.Info()&types.IsInteger == 0 || to.Info()&types.IsInteger == 0 {
+				return
+			}
+			n++
+			size := func(b *types.Basic) int {
+				switch b.Kind() {
+				case types.Int64, types.Uint64, types.Int, types.Uint, types.Uintptr:
+					return 64
+				case types.Int32, types.Uint32:
+					return 32
+				case types.Int16, types.Uint16:
+					return 16
+				}
+				return 8
+			}
+			fu, tu := from.Info()&types.IsUnsigned != 0, to.Info()&types.IsUnsigned != 0
+			if fu != tu && size(from) >= size(to) && size(from) == 64 {
+				if _, isConst := cv.X.(*ssa.Const); isConst {
+					return
+				}
+				bad++
+				c.Bad(rule, fmt.Sprintf("%s | %s -> %s", fnName(fn), tstr(cv.X.Type()), tstr(cv.Type())), l.Pos(cv.Pos()), "a 64-bit integer changes signedness on the encoding path: values with the top bit set are written as numbers of the other sign than encoding/json writes for the Go value")
+			}
+		})
+	}
+	c.Ok(rule, "integer conversions of the encoder", "-", fmt.Sprintf("%d functions of encode.go, %d integer conversions, %d change the sign of a 64-bit value", nf, n, bad))
+	if nf < 15 {
+		c.Und(rule, "functions of the encoder (count)", "-", fmt.Sprintf("only %d functions found in stdlib/json/encode.go", nf))
+	}
+}
+
+// ---- C05/global-operand-interned (also C10) ------------------------------------------------------------------------------------------------
+// A global is addressed by the index of its name in the constant pool.  The
+// index a symbol carries was taken from the constants of the compilation that
+// declared it; the symbol table can outlive them (the declaring fragment of an
+// Eval session failed to compile: its constants are dropped, its symbols stay;
+// or a symbol table is re-used without its Constants).  Well-formed Bytecode
+// therefore needs the operand of every OpGetGlobal / OpSetGlobal emission to
+// come from interning the name in the constants of THIS compilation (a call
+// that reaches addConstant), not from the stored index alone.
+func ruleGlobalOperandInterned(c *Ctx, rule string) {
+	l := c.L
+	emit := l.Method(modPath, "Compiler", "emit")
+	addConst := l.Method(modPath, "Compiler", "addConstant")
+	if !c.Anchor(rule, "Compiler.emit / Compiler.addConstant", emit != nil && addConst != nil && len(emit.Params) >= 4) {
+		return
+	}
+	ops := map[int64]string{}
+	for o, v := range opcodeConsts(l) {
+		if o.Name() == "OpGetGlobal" || o.Name() == "OpSetGlobal" {
+			ops[v] = o.Name()
+		}
+	}
+	if !c.Anchor(rule, "OpGetGlobal / OpSetGlobal", len(ops) == 2) {
+		return
+	}
+	// interns: the value is the result of addConstant, or of a function every return of which is
+	var interns func(v ssa.Value, d int) bool
+	interns = func(v ssa.Value, d int) bool {
+		if d > 4 {
+			return false
+		}
+		switch x := v.(type) {
+		case *ssa.Call:
+			f := x.Call.StaticCallee()
+			if f == addConst {
+				return true
+			}
+			if f == nil || len(f.Blocks) == 0 || funcPkgPath(f) != modPath {
+				return false
+			}
+			k := 0
+			for _, b := range f.Blocks {
+				if ret, ok := b.Instrs[len(b.Instrs)-1].(*ssa.Return); ok && len(ret.Results) == 1 {
+					k++
+					if !interns(ret.Results[0], d+1) {
+						return false
+					}
+				}
+			}
+			return k > 0
+		case *ssa.Phi:
+			for _, e := range x.Edges {
+				if !interns(e, d+1) {
+					return false
+				}
+			}
+			return len(x.Edges) > 0
+		case *ssa.UnOp:
+			// a load of a field stored, in the same function, with an interned value just before
+			if fa, ok := x.X.(*ssa.FieldAddr); ok && x.Op == token.MUL {
+				found := false
+				eachInstr(x.Parent(), func(i2 ssa.Instruction) {
+					st, ok := i2.(*ssa.Store)
+					if !ok || found {
+						return
+					}
+					if fa2, ok := st.Addr.(*ssa.FieldAddr); ok && fa2.Field == fa.Field && (fa2 == fa || samePath(fa2, fa)) && instrDominates(st, x) && interns(st.Val, d+1) {
+						found = true
+					}
+				})
+				return found
+			}
+		}
+		return false
+	}
+	n := 0
+	for _, fn := range l.RepoFuncs(func(p string) bool { return p == modPath }) {
+		eachInstr(fn, func(ins ssa.Instruction) {
+			ci, ok := ins.(ssa.CallInstruction)
+			if !ok || ci.Common().StaticCallee() != emit || len(ci.Common().Args) < 4 {
+				return
+			}
+			k, ok := constInt64(ci.Common().Args[2])
+			if !ok {
+				return
+			}
+			nm, ok := ops[k]
+			if !ok {
+				return
+			}
+			elems := variadicElems(ci.Common().Args[3])
+			if len(elems) == 0 {
+				return
+			}
+			n++
+			c.Check(rule, fmt.Sprintf("%s | emit(%s, %s)", fnName(fn), nm, describe(elems[0])), l.Pos(ins.Pos()), interns(elems[0], 0), "the index of the name interned in this compilation's constants",
+				"the operand is the index stored in the symbol, taken from the constants of the compilation that declared the global: a symbol table that outlives those constants (a failed Eval fragment, a re-used table) yields Bytecode whose global instructions index past the constant pool - a successful Compile returns malformed Bytecode and the VM panics on it")
+		})
+	}
+	if n < 3 {
+		c.Und(rule, "emissions of OpGetGlobal / OpSetGlobal", "-", fmt.Sprintf("only %d found", n))
+	}
+}
